@@ -524,7 +524,7 @@ func (p *c15) coqCase(c c15Case, obs c15Obs) string {
 			saved = "(Some " + c15CoqEnts(obs.Saved) + ")"
 		}
 		tree := "None"
-		if obs.SaveDirErr == "" {
+		if obs.SaveDirErr == "" && !obs.IgnoreErr { // an unparsable .helmignore: LoadDir fails before the model's part starts
 			tree = "(Some " + c15CoqFiles(obs.Tree) + ")"
 		}
 		spec := c15CoqChart(c15Project(c15Build(c.Chart)))
